@@ -36,7 +36,9 @@ F2 == { Case("F2", <<Rule("start", Cat(Un(o1, s), Un(o2, s))), XRule>>) : o1 \in
       \cup { Case("F2", <<Rule("start", Cat(Cat(Un(o1, s), A), Un(o1, s))), XRule>>) : o1 \in UnaryOps, s \in Shared }
 
 \* two different sub-expressions, each under the same two operators (the memo of one must not leak into the other)
-Pairs == { <<A, B>>, <<Cat(A, B), Cat(B, A)>>, <<X, A>>, <<Alt(A, B), C>>, <<Cat(A, B), X>> }
+\* (the last three: bodies whose written SYMBOLS coincide - concatenated vs alternated, with vs without an empty alternative)
+Pairs == { <<A, B>>, <<Cat(A, B), Cat(B, A)>>, <<X, A>>, <<Alt(A, B), C>>, <<Cat(A, B), X>>,
+           <<Cat(A, B), Alt(A, B)>>, <<Cat(A, B), TAlt(Cat(A, B))>>, <<Alt(A, B), Alt(A, TAlt(B))>> }
 F2b == { Case("F2", <<Rule("start", Cat(Cat(Cat(Un(o1, p[1]), Un(o2, p[1])), Un(o1, p[2])), Un(o2, p[2]))), XRule>>) :
            o1 \in UnaryOps, o2 \in UnaryOps, p \in Pairs }
        \cup { Case("F2", <<Rule("start", Cat(Un(o1, p[1]), Un(o2, p[1]))), Rule("x", Cat(Un(o1, p[2]), Un(o2, p[2])))>>) :
@@ -165,7 +167,10 @@ F11 == { Case("F11", <<Rule("start", AltChain(1, n)), XRule>>) : n \in {11, 12, 
        \cup { Case("F11", [i \in 1..n |-> IF i = 1 THEN Rule("start", AltChain(1, 3)) ELSE Rule("r" \o ToString(i), Cat(TN(i), B))]) : n \in {20, 45} }
        \cup { Case("F11", <<Rule("start", Alt(Cat(Cat(NT("start"), A), NT("start")), B)), Dir("left", [i \in 1..n |-> HTerm("t" \o ToString(i), TRUE)])>>) : n \in {14, 30} }
 
-All == F11 \cup F9 \cup F8b \cup F3b \cup F8 \cup F7 \cup F1 \cup F2 \cup F2b \cup F2c \cup F2d \cup F2e \cup F3 \cup F4 \cup F6
+\* a rule whose name is two other rule names run together, each side under the same operator
+F3c == { Case("F3", <<Rule("start", Cat(Cat(Un(op, NT("xy")), C), Un(op, Cat(NT("x"), NT("y"))))), Rule("x", A), Rule("y", B), Rule("xy", C)>>) : op \in UnaryOps }
+
+All == F3c \cup F11 \cup F9 \cup F8b \cup F3b \cup F8 \cup F7 \cup F1 \cup F2 \cup F2b \cup F2c \cup F2d \cup F2e \cup F3 \cup F4 \cup F6
 \* Guard of the generator itself: every right-hand side (of a rule or of a rule handle) must be a tree the printer writes
 \* without parentheses of its own - otherwise the printed text is the text of ANOTHER tree and every check that compares
 \* with the abstract tree would raise a false alarm.  A violation stops the generation (an infrastructure failure).
